@@ -82,3 +82,13 @@ impl From<SystemTime> for std::time::SystemTime {
         t.0
     }
 }
+
+/// Body of every simulated sleep: one scheduling point that moves the simulated clock on.
+pub(crate) fn sleep_exec(d: Duration) -> impl FnOnce(&mut crate::kernel::State, &mut crate::kernel::OpRec) + Send + Sync + 'static {
+    move |st, rec| {
+        let ns = u64::try_from(d.as_nanos()).unwrap_or(u64::MAX / 4);
+        st.world.clock_ns = st.world.clock_ns.saturating_add(ns);
+        rec.bytes = ns / 1_000_000;
+        rec.ok = true;
+    }
+}
